@@ -41,6 +41,39 @@ def main():
     out = {'id': sid, 'property': prop}
     r = sh(['patch', '-p1', '--no-backup-if-mismatch', '-i', os.path.join(os.path.abspath(src), 'patch.diff')], cwd=scratch)
     out['applies'] = r.returncode == 0
+    if not out['applies'] and meta.get('base_commit'):
+        # the change was written against an earlier /repo commit and later `fix:` commits touch the same lines:
+        # three-way merge per file (current /repo file <- base file -> base file + change)
+        shutil.rmtree(scratch, ignore_errors=True)
+        shutil.copytree('/repo', scratch, ignore=shutil.ignore_patterns('.git', '__pycache__', '*.egg-info', 'docs', 'examples'))
+        tmpb = scratch + '_base'
+        tmpp = scratch + '_patched'
+        for d in (tmpb, tmpp):
+            shutil.rmtree(d, ignore_errors=True)
+            os.makedirs(d)
+            subprocess.run('git -C /repo archive %s | tar -x -C %s' % (meta['base_commit'], d), shell=True)
+        r = sh(['patch', '-p1', '--no-backup-if-mismatch', '-i', os.path.join(os.path.abspath(src), 'patch.diff')], cwd=tmpp)
+        ok = r.returncode == 0
+        files = [l[6:].strip() for l in open(os.path.join(src, 'patch.diff')) if l.startswith('+++ b/')]
+        for f in files:
+            if not ok:
+                break
+            cur = os.path.join(scratch, f)
+            if not os.path.exists(cur):
+                shutil.copy(os.path.join(tmpp, f), cur)
+                continue
+            keep = open(cur).read()
+            m = sh(['git', 'merge-file', cur, os.path.join(tmpb, f), os.path.join(tmpp, f)])
+            if m.returncode != 0:       # both sides add lines at the same place: keep both (union)
+                open(cur, 'w').write(keep)
+                m = sh(['git', 'merge-file', '--union', cur, os.path.join(tmpb, f), os.path.join(tmpp, f)])
+                out['merged_with_union'] = True
+            ok = ok and m.returncode == 0
+            r = m if m.returncode != 0 else r
+        for d in (tmpb, tmpp):
+            shutil.rmtree(d, ignore_errors=True)
+        out['applies'] = ok
+        out['rebased_onto_head'] = ok
     if not out['applies']:
         out['apply_output'] = (r.stdout + r.stderr)[-400:]
         print(json.dumps(out, indent=1))
@@ -76,6 +109,7 @@ def main():
         shutil.copy(os.path.join(src, 'patch.diff'), dst)
         shutil.copy(os.path.join(src, 'demo.py'), dst)
         m2 = dict(meta)
+        m2.setdefault('base_commit', subprocess.run(['git', '-C', '/repo', 'rev-parse', '--short', 'HEAD'], capture_output=True, text=True).stdout.strip())
         m2['verified'] = {k: out[k] for k in ('suite', 'suite_passes', 'demo_with_change_rc', 'demo_without_change_rc', 'confirmed')}
         m2['verified']['how'] = ('scratch copy of /repo + patch.diff; repository test suite; demo.py against the copy and against /repo; '
                                  './mc <property> %s with EQSIG_SRC=<copy>' % a.tier)
